@@ -30,6 +30,9 @@ pub enum Op {
     Add { idx: u16, id: u32, v: Vec<u32> },
     Append { idx: u16, id: u32, v: Vec<u32> },
     Del { idx: u16, id: u32 },
+    /// bulk add in one event (large histories): (id, vector bits)
+    AddMany { idx: u16, items: Vec<(u32, Vec<u32>)> },
+    DelMany { idx: u16, ids: Vec<u32> },
     Clear { idx: u16 },
     Build { idx: u16, o: BuildOpts },
     ChangeMetric { idx: u16, to: Metric },
@@ -45,6 +48,8 @@ impl Op {
             Op::Add { idx, .. }
             | Op::Append { idx, .. }
             | Op::Del { idx, .. }
+            | Op::AddMany { idx, .. }
+            | Op::DelMany { idx, .. }
             | Op::Clear { idx }
             | Op::Build { idx, .. }
             | Op::ChangeMetric { idx, .. }
@@ -70,6 +75,22 @@ pub struct History {
     /// free-form label of the generator that produced it
     #[serde(default)]
     pub label: String,
+    /// environment faults this history is allowed to run into: "mapfull"
+    #[serde(default)]
+    pub faults: Vec<String>,
+    /// poll-count watchdog of builds (a build polling more often is reported as NoProgress)
+    #[serde(default = "default_max_polls")]
+    pub max_polls: u64,
+    /// log margin sides / run per-item observations (switched off for large histories)
+    #[serde(default = "yes")]
+    pub sides: bool,
+}
+
+fn default_max_polls() -> u64 {
+    5_000_000
+}
+fn yes() -> bool {
+    true
 }
 
 fn default_map_size() -> usize {
